@@ -45,6 +45,16 @@ func C06(c *core.Ctx) {
 		c.Decide(res.OK && res.PassEdges > 0, "R6.1", "fib-writes-only-for-named-entries", p.Pos(up.Pos()),
 			"ClearNextHopsEnc/InsertNextHopEnc reachable only when the entry has a name",
 			"a name-less filler RIB node can write to the FIB: a nil name addresses the root entry in both FIB implementations, so inherited routes show up as next hops of '/'; path: "+p.PathString(res.Path))
+		// R6.1b: next hops are installed only for entries that hold routes of their own
+		hasRoutes := atomLenFieldPositive("routes", func(b ssa.Value) bool { return core.Strip(b) == r })
+		var inserts []ssa.Instruction
+		for _, ci := range core.FindCalls(up, core.CalleeID{Pkg: "fw/table", Recv: "FibStrategy", Name: "InsertNextHopEnc"}) {
+			inserts = append(inserts, ci)
+		}
+		res = core.Gate(up, inserts, pos(hasRoutes))
+		c.Decide(len(inserts) > 0 && res.OK && res.PassEdges > 0, "R6.1", "fib-inserts-only-for-entries-with-routes", p.Pos(up.Pos()),
+			"InsertNextHopEnc reachable only when len(entry.routes) > 0",
+			"an entry without routes of its own gets inherited next hops installed under its name: when that entry is pruned afterwards (last route removed) nothing refreshes the FIB entry again and next hops of later-removed routes remain; path: "+p.PathString(res.Path))
 		// recursion into children on every exit path
 		isRec := func(in ssa.Instruction) bool {
 			cc, ok := core.IsCall(in, core.CalleeID{Pkg: "fw/table", Recv: "RibEntry", Name: "updateNexthopsEnc"})
